@@ -19,7 +19,7 @@ BUFS = None
 def bufs():
     global BUFS
     if BUFS is None:
-        BUFS = dict(PE=yv.blob("PE32_FILE"), ELF=yv.blob("ELF32_FILE"), TXT1=TXT1, TXT0=b"nothing here!", EMPTY=b"", MANY=b"q" * 12,
+        BUFS = dict(PE=yv.blob("PE32_FILE"), ELF=yv.blob("ELF32_FILE"), TXT1=TXT1, TXT0=b"nothing here!", EMPTY=b"", MANY=b"q" * 12, MANY2=b"w" * 14 + b" " + b"v" * 12,
                     CHAIN=b"ab....yy ab", FIB=b"f" + b"a" * 10 + b" g" + b"a" * 12, FIB2=b"g" + b"a" * 12, FIBOK=b"zz faz gb zz")
     return BUFS
 
@@ -34,6 +34,8 @@ rule fs { condition: filesize > 12 }
 rule a { strings: $a = "abc" condition: $a }
 rule a2 { strings: $a = "abc" condition: #a == 2 and @a[1] == 3 }
 rule q { strings: $q = "q" $a = "abc" condition: $q or $a }
+rule qh { strings: $h = { 77 ?? 77 } condition: $h }
+rule qr { strings: $r = /v[vx]/ condition: $r }
 rule re { strings: $r = /ab+c/ condition: $r }
 rule chain { strings: $h = { 61 62 [4-] 79 79 } condition: $h }
 rule fib { strings: $f = /f([a-c]{1,3}\\.?){1,4}z/ condition: $f }
@@ -56,7 +58,7 @@ def scan_cmd(buf, extra=""):
 def build_ops(w):
     """alphabet of operations; outcome positions are derived from the normal traces of this very tree"""
     ops = []
-    for b in ("PE", "ELF", "TXT1", "TXT0", "EMPTY", "MANY", "CHAIN", "FIB", "FIB2", "FIBOK"):
+    for b in ("PE", "ELF", "TXT1", "TXT0", "EMPTY", "MANY", "MANY2", "CHAIN", "FIB", "FIB2", "FIBOK"):
         ops.append(("scan:%s:normal" % b, scan_cmd(b)))
     w.batch(["reset"]); compile_rules(w)
     w.cmd("scanner 0 0")
@@ -79,6 +81,11 @@ def build_ops(w):
     for k in ktmm[:1]:
         ops.append(("scan:MANY:tmm-abort", scan_cmd("MANY", "cb=%d:A" % k)))
         ops.append(("scan:MANY:tmm-error", scan_cmd("MANY", "cb=%d:E" % k)))
+    # the same for a hex string with a wildcard (fast regexp matcher) and a regexp (general matcher): one op per too-many-matches message
+    tr2 = w.cmd(scan_cmd("MANY2"))["t"]
+    for j, k in enumerate([i for i, m in enumerate(tr2) if m[0] == "tmm"][:2]):
+        ops.append(("scan:MANY2:tmm%d-abort" % j, scan_cmd("MANY2", "cb=%d:A" % k)))
+        ops.append(("scan:MANY2:tmm%d-error" % j, scan_cmd("MANY2", "cb=%d:E" % k)))
     # suspended by a not-ready block and resumed / abandoned
     base = "scan target=s0 via=blocks flags=0 timeout=0 data=%s blocks=6,7 " % yv.hx(TXT1)
     ops.append(("scan:TXT1:blocks", base))
@@ -264,7 +271,7 @@ def main():
     ck.cov["distinct_nontrivial"] = len(seen)
     for h in list(seen.values())[-3:]:
         ck.sample([ops[i][0] for i in h])
-    ck.cov["rule"] = ("alphabet = scans of {PE, ELF, text with/without matches, empty, 12 x 'q' (match limit 8), chained hex, a regex that exhausts the fiber pool (16) and one that does not} x outcomes "
+    ck.cov["rule"] = ("alphabet = scans of {PE, ELF, text with/without matches, empty, 12 x 'q' (match limit 8; also for a hex string with a wildcard and a regexp), chained hex, a regex that exhausts the fiber pool (16) and one that does not} x outcomes "
                       "{normal, abort/error at every message index, timeout at every poll index (virtual clock), too-many-matches "
                       "abort/error, not-ready resumed/abandoned (text, ELF and PE through a two-block iterator)} + scanner-level defines; all sequences of length L unmerged, BFS to "
                       "depth D merged on the persistent fields of YR_SCAN_CONTEXT; oracle = same op on a fresh scanner with the same "
